@@ -9,6 +9,9 @@
 #include "sim_int.h"
 
 #include <sched.h>
+#include <dirent.h>
+#include <sys/syscall.h>
+#include <unistd.h>
 
 VCOMMON_GLOBALS
 
@@ -39,6 +42,7 @@ static int STEP_OF_OP_LAST[MAXSTEPS]; /* last step index of writer op i */
 static int NSTEPS;
 
 static volatile int W_STARTED, W_COMPLETED, W_DONE;
+static volatile unsigned long PROGRESS; /* operations and lookups done, for the deadlock monitor */
 
 enum { Q_VALIDATE, Q_ENUM4, Q_ENUM6, Q_GETALL, Q_SEARCH };
 struct rlog {
@@ -58,6 +62,7 @@ struct reader {
 	struct pfx_table *pt;
 	struct spki_table *kt;
 	int id;
+	unsigned long failed_lookups, failed_but_ok;
 };
 
 /* "hot" cases: all router keys sit under two (AS, SKI) pairs, the writer works almost only on keys and readers mostly
@@ -254,6 +259,7 @@ static void *writer_main(void *arg)
 			break;
 		}
 		__atomic_store_n(&W_COMPLETED, STEP_OF_OP_LAST[i], __ATOMIC_SEQ_CST);
+		PROGRESS++;
 		if ((i & 7) == 0)
 			sched_yield();
 	}
@@ -306,18 +312,45 @@ static void alloc_delay(void)
 	__atomic_fetch_add(&ALLOC_DELAYS, 1, __ATOMIC_RELAXED);
 }
 
+/* ... and one in 48 fails: a lookup that cannot allocate must come back with an error and leave the lock as it found it */
+static __thread unsigned long ALLOC_FAILS;
+static uint64_t ALLOC_FAILS_TOTAL;
+
+static bool alloc_fails_now(void)
+{
+	uint32_t x = ALLOC_DELAY_RNG;
+
+	if (!x)
+		return false;
+	x ^= x << 13;
+	x ^= x >> 17;
+	x ^= x << 5;
+	ALLOC_DELAY_RNG = x ? x : 1;
+	if (x % 48)
+		return false;
+	ALLOC_FAILS++;
+	__atomic_fetch_add(&ALLOC_FAILS_TOTAL, 1, __ATOMIC_RELAXED);
+	return true;
+}
+
 static void *d_malloc(size_t n)
 {
-	void *p = malloc(n);
+	void *p;
 
+	if (alloc_fails_now())
+		return NULL;
+	p = malloc(n);
 	alloc_delay();
 	return p;
 }
 
 static void *d_realloc(void *o, size_t n)
 {
-	void *p = realloc(o, n);
+	void *p;
 
+	if (n && alloc_fails_now())
+		return NULL;
+	p = realloc(o, n);
 	alloc_delay();
 	return p;
 }
@@ -340,6 +373,8 @@ static void *reader_main(void *arg)
 
 		if (HOT && k >= 20)
 			k = 65 + k % 35;
+		unsigned long fails0 = ALLOC_FAILS;
+
 		memset(l, 0, sizeof(*l));
 		l->lo = __atomic_load_n(&W_COMPLETED, __ATOMIC_SEQ_CST);
 		if (k < 50) {
@@ -396,8 +431,12 @@ static void *reader_main(void *arg)
 				l->kind = Q_SEARCH;
 				rc = spki_table_search_by_ski(rd->kt, LSKI[l->b], &res, &n);
 			}
-			if (rc != SPKI_SUCCESS)
+			if (rc != SPKI_SUCCESS) {
+				/* on an error the output arguments mean nothing (the library leaves a stale pointer behind) */
 				l->bad = 1;
+				res = NULL;
+				n = 0;
+			}
 			for (unsigned int i = 0; i < n; i++) {
 				int ix = find_uk(&res[i]);
 
@@ -411,6 +450,15 @@ static void *reader_main(void *arg)
 		l->hi = __atomic_load_n(&W_STARTED, __ATOMIC_SEQ_CST);
 		if (l->hi < l->lo)
 			l->hi = l->lo;
+		PROGRESS++;
+		if (ALLOC_FAILS != fails0) {
+			/* an allocation of this lookup was made to fail: it must have reported an error (for validation the reason
+			 * array is then gone); it gives no answer to check, the next lookups do */
+			rd->failed_lookups++;
+			if (l->kind == Q_VALIDATE && !l->bad)
+				rd->failed_but_ok++;
+			continue;
+		}
 		rd->n++;
 		if ((rd->n & 31) == 0)
 			sched_yield(); /* glibc rwlocks prefer readers: let the writer in */
@@ -475,6 +523,71 @@ static bool answer_ok(const struct rlog *l, uint64_t pm, uint64_t km)
 	}
 }
 
+/* Deadlock monitor for the multi-threaded runs: a watchdog thread looks once
+ * per second: when the progress counter stands still and every other thread of the process is asleep (kernel
+ * state S, never R or D) at 25 consecutive looks, nobody is left who could wake anybody - a lock has been left in a state
+ * no thread can get out of - and that is reported for the property the run belongs to. */
+
+static bool all_other_threads_asleep(void)
+{
+	DIR *d = opendir("/proc/self/task");
+	struct dirent *e;
+	pid_t me = (pid_t)syscall(SYS_gettid);
+	bool asleep = true;
+
+	if (!d)
+		return false;
+	while ((e = readdir(d)) != NULL && asleep) {
+		char pth[300], buf[512], *p;
+		FILE *f;
+
+		if (e->d_name[0] == '.' || atoi(e->d_name) == (int)me)
+			continue;
+		snprintf(pth, sizeof(pth), "/proc/self/task/%s/stat", e->d_name);
+		f = fopen(pth, "r");
+		if (!f)
+			continue;
+		if (fgets(buf, sizeof(buf), f)) {
+			p = strrchr(buf, ')');
+			if (!p || p[1] != ' ' || p[2] != 'S')
+				asleep = false;
+		}
+		fclose(f);
+	}
+	closedir(d);
+	return asleep;
+}
+
+static const char *WATCH_PROP = "C16", *WATCH_WHAT = "lin";
+
+/* runs for the life of the process; covers the driver thread too (it takes table locks when it frees the tables) */
+static void *watchdog_main(void *arg)
+{
+	unsigned long last = PROGRESS + 1;
+	int still = 0;
+
+	(void)arg;
+	for (;;) {
+		struct timespec ts = {1, 0};
+
+		nanosleep(&ts, NULL);
+		if (PROGRESS != last || !all_other_threads_asleep()) {
+			last = PROGRESS;
+			still = 0;
+			continue;
+		}
+		if (++still >= 25) {
+			char key[96];
+
+			snprintf(key, sizeof(key), "%s:blocked:%s", WATCH_PROP, WATCH_WHAT);
+			viol(WATCH_PROP, key, "every thread of the run sleeps and none has made progress for 25 looks one second apart: a table lock is in a state nobody can leave (%lu operations done)",
+			     PROGRESS);
+			vo_abort_case();
+		}
+	}
+	return NULL;
+}
+
 static void run_lin_case(struct rng *r, long c, int nops, int light)
 {
 	struct pfx_table pt;
@@ -532,6 +645,10 @@ static void run_lin_case(struct rng *r, long c, int nops, int light)
 			}
 		}
 		hh = hmix(hh, (uint64_t)rd[i].n);
+	}
+	for (int i = 0; i < nr; i++) {
+		cnt_add("c16/lookups_with_injected_allocation_failure", rd[i].failed_lookups);
+		cnt_add("c16/validations_succeeding_despite_injected_failure", rd[i].failed_but_ok);
 	}
 	cnt_add("c16/reads_checked", total);
 	cnt_add("c16/reads_overlapping_a_write", overlapping);
@@ -645,8 +762,10 @@ static void *rreader_main(void *arg)
 		int q = (int)rndn(&rd->rng, NQ);
 
 		/* glibc rwlocks prefer readers: without gaps a crowd of spinning readers starves the table swap */
-		if ((++spins & 15) == 0)
+		if ((++spins & 15) == 0) {
+			PROGRESS++;
 			sched_yield();
+		}
 		if ((spins & 1023) == 0) {
 			struct timespec ts = {0, 20000};
 
@@ -1038,10 +1157,21 @@ int main(int argc, char **argv)
 
 	vo_open(argv[5]);
 	lrtr_set_alloc_functions(d_malloc, d_realloc, d_free);
+	{
+		pthread_t wd;
+
+		if (!strcmp(mode, "reload")) {
+			WATCH_PROP = "C06";
+			WATCH_WHAT = "reload";
+		}
+		pthread_create(&wd, NULL, watchdog_main, NULL);
+		pthread_detach(wd);
+	}
 	for (long c = from; c < to; c++) {
 		struct rng r;
 
 		vo_case(c);
+		PROGRESS++;
 		rng_seed(&r, seed, (uint64_t)c);
 		if (!strcmp(mode, "lin"))
 			run_lin_case(&r, c, nops, light);
